@@ -298,6 +298,50 @@ def tokens_out_of_place(text, data):
     return bad
 
 
+def from_pos(text, line, col):
+    """Index of (line, UTF-16 column) in text, None when there is no such place."""
+    s = 0
+    for _ in range(line):
+        s = text.find("\n", s) + 1
+        if s == 0:
+            return None
+    u = 0
+    while u < col:
+        if s >= len(text) or text[s] == "\n":
+            return None
+        u += w16(text[s])
+        s += 1
+    return s if u == col else None
+
+
+RENAMED = "zqrenamed"
+
+
+def rename_out_of_place(text, resp, uri, probed):
+    """A textDocument/rename answer for the marker variable that cannot be right for `text`: an edit whose range
+    (UTF-16 columns) is not exactly one spelling of the marker, whose new text is not the requested name, that
+    touches another document.  (Whether every occurrence is found is C16's subject and not judged here: in a text that
+    does not parse, an occurrence inside the damaged statement -- even the one pointed at -- may be left alone.)
+    Returns -1 when the server refused (error / null), else the number of such edits."""
+    res = resp.get("result") if isinstance(resp, dict) else None
+    if not isinstance(res, dict):
+        return -1
+    edits = []
+    for u, es in (res.get("changes") or {}).items():
+        edits += [(u, e) for e in es]
+    for dc in res.get("documentChanges") or []:
+        if isinstance(dc, dict) and "edits" in dc:
+            edits += [(dc.get("textDocument", {}).get("uri"), e) for e in dc["edits"]]
+    bad = 0
+    for u, e in edits:
+        r = e.get("range", {})
+        a = from_pos(text, r.get("start", {}).get("line", -1), r.get("start", {}).get("character", -1)) if u == uri else None
+        b = from_pos(text, r.get("end", {}).get("line", -1), r.get("end", {}).get("character", -1)) if u == uri else None
+        if a is None or b is None or text[a:b].lower() != MARKER or e.get("newText") != RENAMED:
+            bad += 1
+    return bad
+
+
 def norm(x):
     """Answers are compared as they are, minus the per-server request counters."""
     if isinstance(x, dict):
@@ -434,7 +478,10 @@ class Session:
             p = {"textDocument": {"uri": uri}, "position": {"line": ql, "character": qc}}
             ia = self.call("incr", "Probe", lambda: A.send_request("textDocument/prepareRename", p))
             ib = self.call("fresh", "Probe", lambda: B.send_request("textDocument/prepareRename", p))
-            probe = (i, ql, qc, ia, ib)
+            p2 = dict(p, newName=RENAMED)
+            ja = self.call("incr", "Probe", lambda: A.send_request("textDocument/rename", p2))
+            jb = self.call("fresh", "Probe", lambda: B.send_request("textDocument/rename", p2))
+            probe = (i, ql, qc, ia, ib, ja, jb)
         for k, ia, ib in reqs:
             ra = answer_of(self.call("incr", f"Query:{k}", lambda: A.wait(ia, self.timeout)))
             rb = answer_of(self.call("fresh", f"Query:{k}", lambda: B.wait(ib, self.timeout)))
@@ -446,7 +493,7 @@ class Session:
             if self.keep:
                 full.append({"after_event": len(ev), "kind": k, "incr": ra, "fresh": rb})
         if probe is not None:
-            i, ql, qc, ia, ib = probe
+            i, ql, qc, ia, ib, ja, jb = probe
             e = {"a": "Probe", "i": i + 1, "n": len(MARKER), "ql": ql, "qc": qc}
             for who, srv, rid in (("incr", A, ia), ("fresh", B, ib)):
                 r = self.call(who, "Probe", lambda: srv.wait(rid, self.timeout))
@@ -457,9 +504,16 @@ class Session:
                 if rng is not None and "start" in rng and "end" in rng:
                     e[who] = {"has": True, "l1": rng["start"]["line"], "c1": rng["start"]["character"],
                               "l2": rng["end"]["line"], "c2": rng["end"]["character"]}
+            # the rename itself: both servers hold the editor's text, so their edits must sit on spellings of the
+            # marker in that text (UTF-16 columns) and include the occurrence pointed at
+            ra = self.call("incr", "Probe", lambda: A.wait(ja, self.timeout))
+            rb = self.call("fresh", "Probe", lambda: B.wait(jb, self.timeout))
+            e["renIncr"] = rename_out_of_place(model, ra, uri, i)
+            e["renFresh"] = rename_out_of_place(model, rb, uri, i)
             ev.append(e)
             if self.keep:
                 full.append({"after_event": len(ev), "kind": "prepareRename", "position": [ql, qc]})
+                full.append({"after_event": len(ev), "kind": "rename", "incr": answer_of(ra), "fresh": answer_of(rb)})
         if self.isolate:
             self.stop("B")
         else:
